@@ -208,6 +208,7 @@ def check_get_sed(ctx):
 
 
 def run(ctx):
+    common.check_shared_class_state(ctx, [('sed.cube', 'BaseCube'), ('sed.cube', 'SEDCube'), ('sed.sed', 'SED'), ('convolved_fluxes.convolved_fluxes', 'ConvolvedFluxes')])
     """The round trips are decided by interpreting writer and reader on a symbolic file (roundtrip.py). The older syntactic rules (column / keyword
     agreement tables, the reversal block, the order applied in SED.write, the None guards) run only for a family whose interpretation did not reach a
     verdict, and then they may only say "undecided": they recognise one way of writing the code."""
